@@ -20,13 +20,15 @@
 (* the checks run without it minus the suppressed ones; on real code:      *)
 (* reports(with) = shift(reports(without) minus the slice).                *)
 (***************************************************************************)
-EXTENDS Dispatch
+EXTENDS Dispatch, C07Base
 
 CONSTANTS NProms,       \* set of numbers of Prometheus servers (subset of 1..2)
           LayoutIds,    \* subset of 1..3
           Rules,        \* subset of DOMAIN FileRules: rules comments are written on
           Scopes,       \* subset of {"rule", "file"}
-          AllPlacements \* BOOLEAN: every trailing / between position, or one of each
+          OnlyBasePairs,\* BOOLEAN: rule comments only for (rule, check) pairs with a problem in the base report (C07Base)
+          AllPlacements,\* BOOLEAN: every trailing / between position, or one of each
+          Slim          \* BOOLEAN: only `disable <check name>` written above the rule / on top of the file
 
 -----------------------------------------------------------------------------
 (* The rule file of the harness (text in harness/cmd/vh/exec_c07.go; EXEC   *)
@@ -72,13 +74,18 @@ Timing == { [type |-> "disable", when |-> "none", tfmt |-> "rfc"] }
 \* kinds whose docs page documents the instance spelling that equals String()
 DocInstanceKinds == {"aggregate_keep", "aggregate_strip", "cost", "annotation", "label", "link", "name", "range_query", "reject_lk", "reject_lv"}
 
-\* spellings the documentation gives for an instance: the check name; name($prometheus); name(+tag); the
-\* documented per-instance form
+\* spellings the documentation gives for an instance: the check name; name($prometheus) for the checks whose page
+\* documents it (there String() is exactly name(server)); name(+tag); the documented per-instance form
 DocSpellings(pr) ==
   {pr.rep}
-  \cup (IF pr.prom # "" THEN {pr.rep \o "(" \o pr.prom \o ")"} ELSE {})
+  \cup (IF pr.prom # "" /\ pr.str = pr.rep \o "(" \o pr.prom \o ")" THEN {pr.str} ELSE {})
   \cup {pr.rep \o "(+" \o pr.tags[t] \o ")" : t \in DOMAIN pr.tags}
   \cup (IF pr.kind \in DocInstanceKinds THEN {pr.str} ELSE {})
+\* docs/ignoring.md promises name($prometheus) in general while docs/checks/query/cost.md reserves query/cost($prometheus)
+\* for blocks without maxSeries: for an instance whose String() is not the plain name(server) form that spelling is
+\* ambiguous and never generated
+AmbiguousSpellings(pr) ==
+  IF pr.prom # "" /\ pr.str # pr.rep \o "(" \o pr.prom \o ")" THEN {pr.rep \o "(" \o pr.prom \o ")"} ELSE {}
 
 \* spellings that name nothing present: another server, another tag, an unknown check
 NegativeSpellings(pr) == {pr.rep \o "(nosuchprom)", pr.rep \o "(+nosuchtag)", "foo/bar"}
@@ -109,35 +116,47 @@ ChooseScenario(np, n) ==
 \* every check instance pint creates for a rule under this configuration
 Instances == Range(GetChecksForEntry(Load(cfg), PlainEntry("rule", "noop"), "lint"))
 
+\* (rule, instance) pairs a rule comment is generated for
+Pairs == IF OnlyBasePairs
+         THEN {p \in Rules \X Instances : <<p[1], p[2].str>> \in BasePairsOf(Len(cfg.proms), layout)}
+         ELSE Rules \X Instances
+\* instances a file comment is generated for
+FileTargets == IF OnlyBasePairs
+               THEN {pr \in Instances : \E r \in DOMAIN FileRules : <<r, pr.str>> \in BasePairsOf(Len(cfg.proms), layout)}
+               ELSE Instances
+
 \* the documentation is silent on file/disable for checks of a locked block: such combinations are not generated
-ChooseComment(sc, tm, pr, m) ==
+ChooseComment(sc, tm, r, pr, m) ==
   /\ phase = "comment"
-  /\ ~(sc = "file" /\ \E q \in Instances : q.locked /\ m \in DocSpellings(q))
+  /\ ~\E q \in Instances : m \in AmbiguousSpellings(q)
+  /\ (Slim => tm.type = "disable" /\ m = pr.rep)
+  /\ IF sc = "file" THEN r = 0 /\ pr \in FileTargets /\ ~\E q \in Instances : q.locked /\ m \in DocSpellings(q)
+                    ELSE <<r, pr>> \in Pairs
   /\ cmt' = [scope |-> sc, type |-> tm.type, when |-> tm.when, tfmt |-> tm.tfmt, match |-> m]
-  /\ target' = pr.str
+  /\ target' = pr.str /\ rule' = r
   /\ phase' = "place"
-  /\ UNCHANGED <<cfg, layout, rule, place>>
+  /\ UNCHANGED <<cfg, layout, place>>
 
 TrailLines(r)   == IF AllPlacements THEN FileRules[r].first..FileRules[r].last ELSE {FileRules[r].first, FileRules[r].last}
 BetweenLines(r) == IF AllPlacements THEN FileRules[r].fields ELSE {CHOOSE x \in FileRules[r].fields : \A y \in FileRules[r].fields : x <= y}
 
-ChoosePlace(r, p) ==
+ChoosePlace(p) ==
   /\ phase = "place"
-  /\ IF cmt.scope = "file" THEN r = 0 /\ p \in {[at |-> "top", line |-> 1], [at |-> "bottom", line |-> FileLines + 1]}
-     ELSE /\ r \in Rules
-          /\ \/ p = [at |-> "above", line |-> FileRules[r].first]
-             \/ \E x \in BetweenLines(r) : p = [at |-> "between", line |-> x]
-             \/ \E x \in TrailLines(r) : p = [at |-> "trail", line |-> x]
-  /\ rule' = r /\ place' = p /\ phase' = "eval"
-  /\ UNCHANGED <<cfg, layout, cmt, target>>
+  /\ (Slim => p.at \in {"above", "top"})
+  /\ IF cmt.scope = "file" THEN p \in {[at |-> "top", line |-> 1], [at |-> "bottom", line |-> FileLines + 1]}
+     ELSE \/ p = [at |-> "above", line |-> FileRules[rule].first]
+          \/ \E x \in BetweenLines(rule) : p = [at |-> "between", line |-> x]
+          \/ \E x \in TrailLines(rule) : p = [at |-> "trail", line |-> x]
+  /\ place' = p /\ phase' = "eval"
+  /\ UNCHANGED <<cfg, layout, cmt, target, rule>>
 
 PlaceSet == {[at |-> a, line |-> x] : a \in {"above", "between", "trail", "top", "bottom"}, x \in 1..(FileLines + 1)}
 
 Next ==
   \/ \E np \in NProms, n \in LayoutIds : ChooseScenario(np, n)
-  \/ \E sc \in Scopes, tm \in Timing, pr \in Instances :
-        \E m \in DocSpellings(pr) \cup NegativeSpellings(pr) : ChooseComment(sc, tm, pr, m)
-  \/ \E r \in Rules \cup {0}, p \in PlaceSet : ChoosePlace(r, p)
+  \/ \E sc \in Scopes, tm \in Timing, r \in Rules \cup {0}, pr \in Instances :
+        \E m \in DocSpellings(pr) \cup NegativeSpellings(pr) : ChooseComment(sc, tm, r, pr, m)
+  \/ \E p \in PlaceSet : ChoosePlace(p)
 Spec == Init /\ [][Next]_vars
 
 -----------------------------------------------------------------------------
@@ -169,6 +188,12 @@ ShiftLine(x, p) == IF Inserted(p) /\ x >= p.line THEN x + 1 ELSE x
 InstanceTable(c) ==
   LET ins == Range(GetChecksForEntry(Load(c), PlainEntry("rule", "noop"), "lint")) IN
   [s \in {pr.str : pr \in ins} |-> CHOOSE pr \in ins : pr.str = s]
+
+\* MC: the placement does not enter the model-level property
+MCView == <<phase, cfg, layout, rule, cmt, target>>
+
+\* scenarios, for the base probe of the harness
+EmitScen == phase # "comment" \/ PrintT(<<"SCEN", ToJson([cfg |-> cfg, layout |-> layout, nproms |-> Len(cfg.proms)])>>)
 
 CaseRec == [cfg |-> cfg, layout |-> layout, nproms |-> Len(cfg.proms), rule |-> rule, cmt |-> cmt, text |-> CommentText(cmt),
             place |-> place, target |-> target]
